@@ -51,7 +51,8 @@ CONSTANTS NS,         \* subscriber slots (= max trigger instances = max keys)
           FixInit,    \* markTriggerInitialized: own trigger only, flag + TriggerCountInc set under r.mu
           FixDetach,  \* doneTriggerFromUpdater: detaches the caller's own trigger only
           FixUpdater, \* handleTrigger*: the updater acts on its own trigger (no lookup by id)
-          CfgOK(_)    \* restriction of the configurations explored (TRUE = all)
+          CfgOK(_),   \* restriction of the configurations explored (TRUE = all)
+          Features    \* subset of {"fetch", "ferr", "rerr", "hooks"}: optional dimensions of a configuration
 
 Subs   == 1..NS
 Inst   == 1..NS
@@ -64,10 +65,12 @@ S(i)    == <<"s", i, 0>>
 D(i)    == <<"d", i, 0>>
 G(i)    == <<"g", i, 0>>
 U(s, e) == <<"u", s, e>>
+H(s)    == <<"h", s, 0>>       \* goroutine running the start-up hook of a subscriber that joined an existing trigger
+X(s)    == <<"x", s, 0>>       \* the client of a synchronous subscription going away (cancels the request context)
 SH      == <<"sh", 0, 0>>
 ENV     == <<"env", 0, 0>>
 Actors  == {C(s) : s \in Subs} \cup {S(i) : i \in Inst} \cup {D(i) : i \in Inst} \cup {G(i) : i \in Inst}
-           \cup {U(s, e) : s \in Subs, e \in Events} \cup {SH, ENV}
+           \cup {U(s, e) : s \in Subs, e \in Events} \cup {H(s) : s \in Subs} \cup {X(s) : s \in Subs} \cup {SH, ENV}
 
 VARIABLES
   cfg,   \* [key, filt, conn, start]  fixed after Init
@@ -78,17 +81,27 @@ VARIABLES
 vars == <<cfg, g, o, ac, lab>>
 
 Key(s) == cfg.key[s]
-Pass(s, e) == cfg.filt[s] = "all" \/ e % 2 = 1     \* the subscriber's SubscriptionFilter
+Pass(s, e) == cfg.filt[s] = "all" \/ (cfg.filt[s] = "odd" /\ e % 2 = 1)     \* the subscriber's SubscriptionFilter
+FErr(s) == cfg.filt[s] = "err"                      \* ... whose evaluation fails (invalid filter template) for every event
+AllFalse == [s \in Subs |-> FALSE]
+Sync(s) == cfg.sync /\ s = 1
+Conn(s) == IF Sync(s) THEN 0 ELSE cfg.conn[s]      \* the synchronous call draws a connection id of its own
 
 Configs ==
-  { c \in [key: [Subs -> Keys], filt: [Subs -> {"all", "odd"}], conn: [Subs -> Subs], start: [Inst -> StartModes],
-           fetch: [Subs -> BOOLEAN]] :     \* fetch[s]: the response plan of s has a nested fetch (runs between the event and writeMu)
+  { c \in [key: [Subs -> Keys], conn: [Subs -> Subs], start: [Inst -> StartModes],
+           filt: [Subs -> IF "ferr" \in Features THEN {"all", "odd", "err"} ELSE {"all", "odd"}],
+           fetch: IF "fetch" \in Features THEN [Subs -> BOOLEAN] ELSE {AllFalse},   \* nested fetch in the response plan of s (runs between the event and writeMu)
+           rerr: IF "rerr" \in Features THEN [Subs -> BOOLEAN] ELSE {AllFalse},     \* rendering the response of s fails (error written under writeMu instead of the message)
+           hooks: IF "hooks" \in Features THEN BOOLEAN ELSE {FALSE},                \* the data source has start-up hooks (SubscriptionOnStart per subscriber)
+           hookfail: IF "hooks" \in Features THEN [Subs -> BOOLEAN] ELSE {AllFalse},
+           sync: IF "sync" \in Features THEN BOOLEAN ELSE {FALSE}] :   \* subscriber 1 uses the synchronous ResolveGraphQLSubscription (own connection id)
+       /\ (~c.hooks => c.hookfail = AllFalse)
        /\ \A s \in Subs : c.key[s] <= s /\ c.conn[s] <= s
        /\ \A s \in Subs : c.key[s] = 1 \/ \E q \in Subs : q < s /\ c.key[q] = c.key[s] - 1
        /\ \A s \in Subs : c.conn[s] = 1 \/ \E q \in Subs : q < s /\ c.conn[q] = c.conn[s] - 1
        /\ CfgOK(c) }
 
-Local0 == [pc |-> "none", cur |-> 0, todo |-> {}, cq |-> {}, kq |-> {}, ret |-> "", nx |-> "", e |-> 0, fan |-> {}]
+Local0 == [pc |-> "none", cur |-> 0, todo |-> {}, cq |-> {}, kq |-> {}, ret |-> "", nx |-> "", e |-> 0, fan |-> {}, n |-> 0]
 
 InitG == [reg     |-> [k \in Keys |-> 0],
           isubs   |-> [i \in Inst |-> {}],
@@ -100,6 +113,7 @@ InitG == [reg     |-> [k \in Keys |-> 0],
           srcok   |-> [i \in Inst |-> FALSE],
           init    |-> [i \in Inst |-> FALSE],
           tctx    |-> [i \in Inst |-> FALSE],
+          cctx    |-> [s \in Subs |-> FALSE],      \* request context of the (synchronous) subscriber cancelled
           udone   |-> [i \in Inst |-> FALSE],
           removed |-> [s \in Subs |-> FALSE],
           closed  |-> [s \in Subs |-> 0],
@@ -131,6 +145,7 @@ Init ==
                [] a[1] = "s" -> [Local0 EXCEPT !.pc = "s.idle"]
                [] a[1] = "d" -> [Local0 EXCEPT !.pc = IF UseD THEN "s.idle" ELSE "s.end"]
                [] a[1] = "env" -> [Local0 EXCEPT !.pc = "env"]
+               [] a[1] = "x" -> [Local0 EXCEPT !.pc = IF Sync(a[2]) THEN "x.idle" ELSE "x.end"]
                [] OTHER -> Local0]
   /\ lab = [a |-> NoActor, n |-> "init", x |-> 0, y |-> 0, z |-> 0]
 
@@ -203,12 +218,32 @@ CSub(s) == LET a == C(s)  k == Key(s)  j == g.reg[k] IN
   /\ IF g.shut
      THEN Do(a, [ac[a] EXCEPT !.pc = "c.end"], g, o, "h.ret", s, 1, 0)
      ELSE IF j # 0
-     THEN Do(a, [ac[a] EXCEPT !.pc = "c.added"],
-             [g EXCEPT !.isubs[j] = @ \cup {s}, !.byid = @ \cup {s}, !.sinst[s] = j],
-             [o EXCEPT !.subInc = @ + 1, !.added = @ \cup {s}], "sub.add", s, 0, 0)
-     ELSE DoAc([ac EXCEPT ![a].pc = "c.added", ![G(s)].pc = "g.spawned"],
+     THEN DoAc([ac EXCEPT ![a].pc = IF Sync(s) THEN "c.wait" ELSE "c.added", ![H(s)].pc = IF cfg.hooks THEN "h.spawned" ELSE @],
+               [g EXCEPT !.isubs[j] = @ \cup {s}, !.byid = @ \cup {s}, !.sinst[s] = j],
+               [o EXCEPT !.subInc = @ + 1, !.added = @ \cup {s}], a, "sub.add", s, 0, 0)
+     ELSE DoAc([ac EXCEPT ![a].pc = IF Sync(s) THEN "c.wait" ELSE "c.added", ![G(s)].pc = "g.spawned"],
                [g EXCEPT !.reg[k] = s, !.isubs[s] = {s}, !.byid = @ \cup {s}, !.sinst[s] = s, !.created[s] = TRUE],
                [o EXCEPT !.subInc = @ + 1, !.added = @ \cup {s}], a, "sub.add", s, 1, 0)
+
+\* ResolveGraphQLSubscription after addSubscription: select { <-ctx.Done() ; <-r.ctx.Done() ; <-completed }: any ready case may be taken
+\*   ctx.Done:   UnsubscribeSubscription, then select { <-completed ; <-r.ctx.Done() }
+\*   completed:  UnsubscribeSubscription (a no-op by then), return nil
+\*   r.ctx.Done: return the resolver's context error
+CWaitUnsub(s) == LET a == C(s) IN
+  /\ \/ ac[a].pc = "c.wait" /\ g.cctx[s]
+     \/ ac[a].pc \in {"c.wait", "c.wait2"} /\ g.closed[s] > 0
+  /\ Do(a, [ac[a] EXCEPT !.pc = "un.begin", !.cur = s, !.ret = IF g.closed[s] > 0 THEN "c.ret" ELSE "c.wait2"], g, o, "sub.unsub.begin", s, 0, 0)
+CWaitShutdown(s) == LET a == C(s) IN
+  /\ ac[a].pc \in {"c.wait", "c.wait2"} /\ g.rctx
+  /\ Do(a, [ac[a] EXCEPT !.pc = "c.end"], g, o, "h.ret", s, 1, 0)
+WaitBlocked(a) == \/ ac[a].pc = "c.wait" /\ ~g.cctx[a[2]] /\ ~g.rctx /\ g.closed[a[2]] = 0
+                  \/ ac[a].pc = "c.wait2" /\ ~g.rctx /\ g.closed[a[2]] = 0
+
+\* the client of the synchronous subscription goes away (environment; not while an update of that subscriber is in flight)
+XCancel(s) == LET a == X(s) IN
+  /\ ac[a].pc = "x.idle" /\ o.nterm < MaxTerm /\ ~o.final /\ ac[C(s)].pc = "c.wait"
+  /\ \A e \in Events : ac[U(s, e)].pc \in {"none", "u.end"}
+  /\ Do(a, [ac[a] EXCEPT !.pc = "x.end"], [g EXCEPT !.cctx[s] = TRUE], [o EXCEPT !.nterm = @ + 1], "h.cmd", 12, s, 0)
 
 CAdded(s) == LET a == C(s) IN
   /\ ac[a].pc = "c.added"
@@ -231,7 +266,7 @@ RcStep(a) ==
   /\ ac[a].pc \in {"rc.call", "rc.loop"}
   /\ IF ac[a].pc = "rc.call"
      THEN /\ Free(g.resMu)
-          /\ LET m == IF g.shut THEN {} ELSE {s \in g.byid : cfg.conn[s] = ac[a].cur} IN
+          /\ LET m == IF g.shut THEN {} ELSE {s \in g.byid : Conn(s) = ac[a].cur} IN
              IF m = {}
              THEN Do(a, [ac[a] EXCEPT !.pc = "c.end"], g, o, "h.ret", a[2], 0, 0)
              ELSE \E s \in m :
@@ -284,8 +319,14 @@ SrcReady(a) == g.srcok[Inst0(a)] /\ ~o.final
 
 SCmdUpdate(a) == LET i == Inst0(a) IN
   /\ ac[a].pc = "s.idle" /\ SrcReady(a) /\ o.nev < MaxEvents
-  /\ Do(a, [ac[a] EXCEPT !.pc = "up.call", !.e = o.nev + 1, !.nx = IF a[1] = "d" THEN "s.end" ELSE "s.idle"],
+  /\ Do(a, [ac[a] EXCEPT !.pc = "up.call", !.e = o.nev + 1, !.cur = 0, !.nx = IF a[1] = "d" THEN "s.end" ELSE "s.idle"],
         g, [o EXCEPT !.nev = @ + 1], "h.cmd", 4, i, o.nev + 1)
+
+\* UpdateSubscription(id, data): the event goes to ONE subscription (any slot: the id need not be on this trigger)
+SCmdUpdSub(a, s) == LET i == Inst0(a) IN
+  /\ ac[a].pc = "s.idle" /\ a[1] = "s" /\ SrcReady(a) /\ o.nev < MaxEvents
+  /\ Do(a, [ac[a] EXCEPT !.pc = "up.call", !.e = o.nev + 1, !.cur = s, !.nx = "s.idle"],
+        g, [o EXCEPT !.nev = @ + 1], "h.cmd", 11, i, (o.nev + 1) * 10 + s)
 
 SCmdComplete(a) == LET i == Inst0(a) IN
   /\ ac[a].pc = "s.idle" /\ a[1] = "s" /\ SrcReady(a) /\ o.nsterm < MaxSrcTerm
@@ -342,13 +383,34 @@ UpCall(a) == LET i == Inst0(a)  k == Key(i)  j == g.reg[k]  e == ac[a].e IN
   /\ \/ /\ MaySkip(i) \/ (~FixUpdater /\ j = 0)
         /\ Do(a, [ac[a] EXCEPT !.pc = ac[a].nx], g, o, "upd.leave", Key(i), 0, 0)
      \/ /\ ~(Skip(i) \/ (~FixUpdater /\ j = 0))
-        /\ LET t == {s \in g.isubs[Target(i)] : Pass(s, e)} IN
-          DoAc([x \in Actors |-> IF x = a THEN [ac[a] EXCEPT !.pc = "up.wait", !.fan = t]
-                                 ELSE IF x[1] = "u" /\ x[2] \in t /\ x[3] = e THEN [Local0 EXCEPT !.pc = "u.spawned", !.e = e]
-                                 ELSE ac[x]],
-               [g EXCEPT !.updMu[i] = a],
-               Stale([o EXCEPT !.emitted[k] = Append(@, e)], "update", i, Target(i)),
-               a, "trig.fanout", k, Cardinality(t), 0)
+        /\ LET cand == {s \in (IF ac[a].cur = 0 THEN g.isubs[Target(i)] ELSE {ac[a].cur} \cap g.isubs[Target(i)]) : ~g.cctx[s]}
+               t == {s \in cand : Pass(s, e)}
+               fe == {s \in cand : FErr(s)} IN
+          \* filterSubscriptions [trig.mu]: who gets the event, whose filter failed; nothing is spawned yet
+          Do(a, [ac[a] EXCEPT !.pc = "up.fe", !.fan = t, !.todo = fe, !.n = Cardinality(fe)],
+             [g EXCEPT !.updMu[i] = a],
+             Stale([o EXCEPT !.emitted[k] = Append(@, e)], "update", i, Target(i)),
+             "trig.fanout", k, Cardinality(t), 0)
+
+\* the filter errors are written (writeError each) by the source goroutine itself, then the update goroutines are spawned for the
+\* subscribers that are not removed by then (wg.Go; UpdateSubscription: the one update runs inline, which is the same to everybody else)
+FeNext(a, todo) == LET i == Inst0(a)  k == Key(i)  e == ac[a].e IN
+  IF todo # {}
+  THEN \E s \in todo :
+         Do(a, [ac[a] EXCEPT !.pc = "up.fechk", !.cur = s, !.todo = todo \ {s}], g, o, "sub.werr.begin", s, 0, 0)
+  ELSE LET t == {s \in ac[a].fan : ~g.removed[s]} IN
+       DoAc([x \in Actors |-> IF x = a THEN [ac[a] EXCEPT !.pc = "up.wait", !.fan = t, !.todo = {}]
+                              ELSE IF x[1] = "u" /\ x[2] \in t /\ x[3] = e THEN [Local0 EXCEPT !.pc = "u.spawned", !.e = e]
+                              ELSE ac[x]],
+            g, o, a, "trig.spawn", k, ac[a].n, 0)
+UpFe(a) ==
+  /\ ac[a].pc \in {"up.fe", "up.fenext"}
+  /\ FeNext(a, ac[a].todo)
+FeChk(a) == LET s == ac[a].cur IN
+  /\ ac[a].pc = "up.fechk" /\ Free(g.wMu[s])
+  /\ IF g.removed[s]
+     THEN FeNext(a, ac[a].todo)
+     ELSE Do(a, [ac[a] EXCEPT !.pc = "up.fenext"], g, WCall(o, g, "werror", s), "w.werr", s, 0, 0)
 
 \* wg.Wait() returned
 UpWait(a) == LET i == Inst0(a)  e == ac[a].e IN
@@ -356,7 +418,7 @@ UpWait(a) == LET i == Inst0(a)  e == ac[a].e IN
   /\ \A s \in ac[a].fan : ac[U(s, e)].pc = "u.end"
   /\ Do(a, [ac[a] EXCEPT !.pc = ac[a].nx, !.fan = {}],
         [g EXCEPT !.updMu[i] = NoActor],
-        [o EXCEPT !.must = [s \in Subs |-> IF s \in ac[a].fan /\ ~g.removed[s] THEN @[s] \cup {e} ELSE @[s]]],
+        [o EXCEPT !.must = [s \in Subs |-> IF s \in ac[a].fan /\ ~g.removed[s] /\ ~cfg.rerr[s] THEN @[s] \cup {e} ELSE @[s]]],
         "upd.leave", Key(i), 0, 0)
 
 \* Complete / Error -> handleTriggerComplete / handleTriggerError
@@ -388,7 +450,7 @@ CeStep(a, kind) ==
   /\ CeNext(a, ac[a].todo, g, o, kind)
 
 \* Heartbeat -> heartbeatTriggerSubscriptions: targets chosen up front, executeSubscriptionHeartbeat each
-HbNext(a, todo, gg, oo) == LET i == Inst0(a) IN
+HbNext(a, todo0, gg, oo) == LET i == Inst0(a)  todo == {s \in todo0 : ~gg.cctx[s]} IN
   IF todo = {} \/ gg.rctx
   THEN Do(a, [ac[a] EXCEPT !.pc = ac[a].nx, !.todo = {}], [gg EXCEPT !.updMu[i] = NoActor], oo, "upd.leave", Key(i), 0, 0)
   ELSE \E s \in todo :
@@ -452,8 +514,13 @@ ULock(a) == LET s == a[2] IN
      ELSE Do(a, [ac[a] EXCEPT !.pc = "u.locked"], [g EXCEPT !.wMu[s] = a], o, "sub.write.locked", s, 0, 0)
 
 \* Resolve() wrote the message into the writer; now at Flush()
+\* rendering failed (Resolve returned an error): the error is written through the AsyncErrorWriter under writeMu, nothing is flushed
+UResolveErr(a) == LET s == a[2] IN
+  /\ ac[a].pc = "u.locked" /\ cfg.rerr[s]
+  /\ Do(a, [ac[a] EXCEPT !.pc = "u.fin"], [g EXCEPT !.wMu[s] = NoActor], WCall(o, g, "werror", s), "w.werr", s, 0, 0)
+
 UWrite(a) == LET s == a[2] IN
-  /\ ac[a].pc = "u.locked"
+  /\ ac[a].pc = "u.locked" /\ ~cfg.rerr[s]
   /\ Do(a, [ac[a] EXCEPT !.pc = "u.flushing"], g, WCall(o, g, "write", s), "w.flush.enter", s, a[3], 0)
 
 \* Flush() returns; unlock; a failed flush unsubscribes
@@ -476,10 +543,35 @@ GBegin(a) == LET i == Inst0(a) IN
   /\ ac[a].pc = "g.spawned"
   /\ Do(a, [ac[a] EXCEPT !.pc = "g.begin"], g, o, "trig.start.begin", Key(i), i, 0)
 
+\* executeStartupHooks of the creator (blocking, before Source.Start): a failing hook is a failed start without a Start call
+GHook(a) == LET i == Inst0(a) IN
+  /\ ac[a].pc = "g.begin" /\ cfg.hooks
+  /\ Do(a, [ac[a] EXCEPT !.pc = "g.hook"], g, o, "h.hook", i, B(~cfg.hookfail[i]), 0)
+GHookRet(a) == LET i == Inst0(a) IN
+  /\ ac[a].pc = "g.hook"
+  /\ Do(a, [ac[a] EXCEPT !.pc = IF cfg.hookfail[i] THEN "g.fail" ELSE "g.hooked"], g, o, "h.hook.ret", i, B(~cfg.hookfail[i]), 0)
+
+\* the start-up hook of a subscriber that joined an existing trigger runs in a goroutine of its own; if it fails the subscriber gets
+\* the error and is unsubscribed
+HHook(a) == LET s == a[2] IN
+  /\ ac[a].pc = "h.spawned"
+  /\ Do(a, [ac[a] EXCEPT !.pc = "h.hook"], g, o, "h.hook", s, B(~cfg.hookfail[s]), 0)
+HRet(a) == LET s == a[2] IN
+  /\ ac[a].pc = "h.hook"
+  /\ Do(a, [ac[a] EXCEPT !.pc = IF cfg.hookfail[s] THEN "h.fail" ELSE "h.end"], g, o, "h.hook.ret", s, B(~cfg.hookfail[s]), 0)
+HFail(a) == LET s == a[2] IN
+  /\ ac[a].pc = "h.fail"
+  /\ Do(a, [ac[a] EXCEPT !.pc = "h.werr", !.cur = s], g, o, "sub.werr.begin", s, 0, 0)
+HWerr(a) == LET s == a[2] IN
+  /\ ac[a].pc = "h.werr" /\ Free(g.wMu[s])
+  /\ IF g.removed[s]
+     THEN Do(a, [ac[a] EXCEPT !.pc = "un.begin", !.cur = s, !.ret = "h.end"], g, o, "sub.unsub.begin", s, 0, 0)
+     ELSE Do(a, [ac[a] EXCEPT !.pc = "un.call", !.cur = s, !.ret = "h.end"], g, WCall(o, g, "werror", s), "w.werr", s, 0, 0)
+
 \* Source.Start(cloneCtx, ..., updater)
 GStart(a) == LET i == Inst0(a)
                  ok == cfg.start[i] = "ok" \/ (cfg.start[i] = "ctx" /\ ~g.tctx[i]) IN
-  /\ ac[a].pc = "g.begin"
+  /\ ac[a].pc = (IF cfg.hooks THEN "g.hooked" ELSE "g.begin")
   /\ Do(a, [ac[a] EXCEPT !.pc = IF ok THEN "g.ok" ELSE "g.fail"], [g EXCEPT !.srcok[i] = ok],
         [o EXCEPT !.nstart[i] = @ + 1], "h.start", i, B(ok), B(g.tctx[i]))
 
@@ -524,7 +616,7 @@ GFin(a) == LET i == Inst0(a) IN
 -----------------------------------------------------------------------------
 (* shutdown *)
 
-AtRest(a) == ac[a].pc \in {"none", "c.idle0", "c.idle1", "c.end", "s.idle", "s.idle2", "s.end", "u.end", "g.end", "sh.end", "env", "env.end"}
+AtRest(a) == WaitBlocked(a) \/ ac[a].pc \in {"none", "h.end", "x.idle", "x.end", "c.idle0", "c.idle1", "c.end", "s.idle", "s.idle2", "s.end", "u.end", "g.end", "sh.end", "env", "env.end"}
 AllRest == \A a \in Actors : AtRest(a)
 
 \* cancel of the resolver context: early (a racing terminator) or final (everything else at rest)
@@ -563,19 +655,23 @@ ShFin ==
 (* one action of actor a *)
 
 Micro(a) ==
-  CASE a[1] = "c" -> \/ CCmdSub(a[2]) \/ CSub(a[2]) \/ CAdded(a[2]) \/ CCmdUnsub(a[2]) \/ CCmdRmClient(a[2]) \/ CRet(a[2])
+  CASE a[1] = "x" -> XCancel(a[2])
+    [] a[1] = "c" -> \/ CWaitUnsub(a[2]) \/ CWaitShutdown(a[2])
+                     \/ CCmdSub(a[2]) \/ CSub(a[2]) \/ CAdded(a[2]) \/ CCmdUnsub(a[2]) \/ CCmdRmClient(a[2]) \/ CRet(a[2])
                      \/ RcStep(a) \/ UnCall(a) \/ UnBegin(a) \/ TdNext(a) \/ TdClose(a)
     [] a[1] \in {"s", "d"} ->
                      \/ (\E s \in Subs : SCmdCloseSub(a, s)) \/ CsCall(a)
+                     \/ (\E s \in Subs : SCmdUpdSub(a, s)) \/ UpFe(a) \/ FeChk(a)
                      \/ SCmdUpdate(a) \/ SCmdComplete(a) \/ SCmdError(a) \/ SCmdHeartbeat(a) \/ SCmdDone(a)
                      \/ SRet(a) \/ UpCall(a) \/ UpWait(a)
                      \/ CeCall(a, "co") \/ CeChk(a, "co") \/ CeStep(a, "co")
                      \/ CeCall(a, "er") \/ CeChk(a, "er") \/ CeStep(a, "er")
                      \/ HbCall(a) \/ HbChk(a) \/ HbStep(a) \/ DnCall(a) \/ DtBegin(a)
                      \/ UnCall(a) \/ UnBegin(a) \/ TdNext(a) \/ TdClose(a)
-    [] a[1] = "u" -> \/ UBegin(a) \/ UFetch(a) \/ ULock(a) \/ UWrite(a) \/ UFlush(a) \/ UFin(a)
+    [] a[1] = "u" -> \/ UBegin(a) \/ UFetch(a) \/ ULock(a) \/ UResolveErr(a) \/ UWrite(a) \/ UFlush(a) \/ UFin(a)
                      \/ UnCall(a) \/ UnBegin(a) \/ TdNext(a) \/ TdClose(a)
-    [] a[1] = "g" -> \/ GBegin(a) \/ GStart(a) \/ GOk(a) \/ GInit(a) \/ GFail(a) \/ GWerr(a) \/ GWnext(a) \/ GFin(a)
+    [] a[1] = "h" -> \/ HHook(a) \/ HRet(a) \/ HFail(a) \/ HWerr(a) \/ UnCall(a) \/ UnBegin(a) \/ TdNext(a) \/ TdClose(a)
+    [] a[1] = "g" -> \/ GBegin(a) \/ GHook(a) \/ GHookRet(a) \/ GStart(a) \/ GOk(a) \/ GInit(a) \/ GFail(a) \/ GWerr(a) \/ GWnext(a) \/ GFin(a)
                      \/ DtBegin(a) \/ TdNext(a) \/ TdClose(a)
     [] a[1] = "sh" -> \/ ShSpawned \/ ShBegin \/ ShLoop \/ ShFin \/ TdNext(a) \/ TdClose(a)
     [] a[1] = "env" -> EnvShutdown
@@ -594,13 +690,14 @@ Quiet == AllRest /\ g.rctx /\ ac[SH].pc = "sh.end"
 -----------------------------------------------------------------------------
 (* explicit enabling condition of the next action of an actor (used by the generator; checked against ENABLED) *)
 
-NeedsW(a) == ac[a].pc \in {"td.close", "co.chk", "er.chk", "hb.chk", "g.werr", "u.fetch"} \/ (ac[a].pc = "u.begin" /\ ~cfg.fetch[a[2]])
+NeedsW(a) == ac[a].pc \in {"h.werr", "td.close", "co.chk", "er.chk", "hb.chk", "g.werr", "u.fetch", "up.fechk"} \/ (ac[a].pc = "u.begin" /\ ~cfg.fetch[a[2]])
 WOf(a) == IF a[1] = "u" THEN a[2] ELSE ac[a].cur
 NeedsU(a) == ac[a].pc \in {"up.call", "co.call", "er.call", "hb.call", "dn.call", "cs.call"}
 NeedsR(a) == ac[a].pc \in {"c.sub", "rc.call", "un.begin", "dt.begin", "g.ok", "sh.begin"}
 
 \* blocked on a lock / wait group (not: out of budget)
 Blocked(a) ==
+  \/ WaitBlocked(a)
   \/ NeedsW(a) /\ ~Free(g.wMu[WOf(a)])
   \/ NeedsU(a) /\ ~Free(g.updMu[Inst0(a)])
   \/ NeedsR(a) /\ ~Free(g.resMu)
@@ -639,7 +736,7 @@ SharedIffSameKey ==
 \* the upstream is started exactly once per trigger instance
 StartOncePerLivePeriod ==
   \A i \in Inst : /\ o.nstart[i] <= 1
-                  /\ (ac[G(i)].pc = "g.end" => o.nstart[i] = 1)
+                  /\ (ac[G(i)].pc = "g.end" => o.nstart[i] = IF cfg.hooks /\ cfg.hookfail[i] THEN 0 ELSE 1)
                   /\ (o.nstart[i] > 0 => g.created[i])
 \* a goroutine of a stale instance never acts on the instance that now owns the id; `initialized` never set after detach
 NoStaleInit == "init" \notin o.stale                                   \* markTriggerInitialized(id) of a stale start goroutine
